@@ -628,10 +628,65 @@ func c16Relabelled(c *fw.Case) {
 				}
 			}
 		}
+		if typ != gen.Ed25519 {
+			// a curve name in another letter case (or with the Kelvin sign for k) is not the registered name: such a JWK names no
+			// supported curve and verifies nothing, although its coordinates are the signer's
+			for _, cv := range []string{strings.ToUpper(typ), strings.ToLower(typ), strings.Title(strings.ToLower(typ)), strings.Replace(typ, "k", "\u212a", 1), typ + " ", " " + typ} {
+				if cv == typ {
+					continue
+				}
+				vj := *jwk
+				vj.Crv = cv
+				c.Count("curve-name-variants-with-genuine-signature", 1)
+				c.Evals(1)
+				if err := jwsutil.VerifySignature(&vj, sig, msg); err == nil {
+					c.Failf("bad-jwk-verifies:curve-name-variant", map[string]interface{}{"genuine_jwk": k.JWK(), "crv": cv}, "a genuine %s signature verifies under the key's JWK with the curve named %q", typ, cv)
+				}
+			}
+		}
 		c2, _ := commitment.GetCommitment(jwk, 18)
 		if *jwk != before || c1 != c2 {
 			c.Failf("jwk-changed-by-reading", map[string]interface{}{"jwk_before": before, "jwk_after": *jwk, "commitment_before": c1, "commitment_after": c2},
 				"verifying with a %s JWK changed the caller's JWK object (commitment before %s, after %s)", typ, c1, c2)
+		}
+	}
+	// a coordinate one octet short whose text is made 43 characters long again by a line break (base64 decoders skip line breaks; a
+	// buffer sized by the text length then ends in a zero octet): wrong width, whatever the last octet of the real coordinate is.
+	// Keys whose x ends in a zero octet are searched for, so that the zero-filled value is the real point.
+	if c.Idx%3 == 0 {
+		for _, typ := range []string{gen.Secp256k1, gen.P256} {
+			var k *gen.Key
+			for try := 0; try < 4000 && k == nil; try++ {
+				cand := gen.NewKey(r, typ)
+				if x, _ := cand.XY(); x[len(x)-1] == 0 {
+					k = cand
+				}
+			}
+			if k == nil {
+				c.Inconclusive("no-key-with-trailing-zero-octet-found")
+				continue
+			}
+			xb, yb := k.XY()
+			msg := r.Bytes(20)
+			sig := k.Sign(r, msg)
+			for _, brk := range []string{"\n", "\r", "\r\n"} {
+				short := oracle.B64(xb[:len(xb)-1])
+				for _, xt := range []string{short + brk, brk + short, short[:10] + brk + short[10:]} {
+					wj := toLibJWK(k.JWK())
+					wj.X = xt
+					c.Count("short-coordinate-with-line-break", 1)
+					c.Evals(2)
+					w := map[string]interface{}{"genuine_jwk": k.JWK(), "x_text": xt, "y": oracle.B64(yb)}
+					if err := jwsutil.VerifySignature(wj, sig, msg); err == nil {
+						c.Failf("bad-jwk-verifies:short-coordinate-with-line-break", w, "a genuine %s signature verifies under a JWK whose x is one octet short and contains a line break", typ)
+					}
+					text, _ := json.Marshal(map[string]interface{}{"kty": "EC", "crv": typ, "x": xt, "y": oracle.B64(yb)})
+					var jk jwsutil.JWK
+					if err := jk.UnmarshalJSON(text); err == nil {
+						c.Failf("bad-jwk-accepted:short-coordinate-with-line-break", w, "UnmarshalJSON accepted a %s JWK whose x is one octet short and contains a line break", typ)
+					}
+				}
+			}
 		}
 	}
 	for _, typ := range []string{gen.P256, gen.Secp256k1} {
